@@ -170,6 +170,27 @@ def rule_seeds(ctx, R="C20.2"):
         envs = {render(strip(c["args"][0])) for c in walk(fn["body"]) if c["k"] == "MethodCall" and c["method"] == "propagate_" + kind and c["args"]}
         ok = len(envs) == 1 and all(e in le and sgrep.match(sgrep.pattern(init), le[e], {}) for e in envs)
         ctx.check(R, "Cfg::propagate_%s/environment-starts-empty" % kind, ok, "environment(s) handed to the blocks: %s = %s" % (sorted(envs), [render(le[e]) for e in envs if e in le]), site(CFG, fn))
+    # one change per pass, at the level of blocks as well: a block is propagated only while no earlier block changed in
+    # this pass (`rerun = rerun || b.propagate(env)`, `if !rerun {..}`, a short-circuiting `any`) - so a later block never
+    # runs ahead of an earlier one that is still unresolved, which is what the pessimistic reading of a cut state needs
+    from pathcond import find_path
+
+    for kind in ("values", "degrees"):
+        fn = find_fn(CFG, "propagate_" + kind, "Cfg")
+        if fn is None:
+            continue
+        cs_ = [c_ for c_ in method_calls(fn["body"], "propagate_" + kind)]
+        sc_ok = False
+        how = "propagate_%s x%d" % (kind, len(cs_))
+        if len(cs_) == 1:
+            path = find_path(fn["body"], cs_[0]) or []
+            lazy_or = any(parent["k"] == "Binary" and parent.get("op") == "||" and slot == "r" and strip(parent["l"])["k"] == "Path" for parent, slot, _c in path)
+            conds_ = conditions_to(fn["body"], cs_[0]) or []
+            in_any = any(c_[0] == "closure" for c_ in conds_) and any(m_["k"] == "MethodCall" and m_["method"] == "any" and any(x is cs_[0] for x in walk(m_)) for m_ in walk(fn["body"]))
+            guarded = any(c_[0] == "if" and not c_[2] and strip(c_[1])["k"] == "Path" for c_ in conds_)
+            sc_ok = lazy_or or in_any or guarded
+            how = "lazy-or=%s any=%s guarded=%s" % (lazy_or, in_any, guarded)
+        ctx.check(R, "Cfg::propagate_%s/one-change-per-pass" % kind, sc_ok, "the blocks' propagate_%s must be short-circuited on the change flag (%s)" % (kind, how), site(CFG, fn))
     for kind in ("values", "degrees"):
         f = find_fn(BB, "propagate_" + kind, "BasicBlock")
         if f is None:
